@@ -1093,8 +1093,27 @@ func (h *host) invoke(st *Step, idx int) {
 	if st.SigIssued != "" {
 		h.signal(st.SigIssued)
 	}
-	cl := &http.Client{Transport: &http.Transport{DisableKeepAlives: true, DisableCompression: true}}
+	tp := &http.Transport{DisableKeepAlives: true, DisableCompression: true}
+	if st.ReadAfter != "" {
+		// a small receive buffer, so that the front end cannot get rid of a large response while the caller is not reading
+		tp.ReadBufferSize = 4096
+		tp.DialContext = func(ctx context.Context, network, addr string) (net.Conn, error) {
+			c, err := (&net.Dialer{}).DialContext(ctx, network, addr)
+			if tc, ok := c.(*net.TCPConn); ok && err == nil {
+				tc.SetReadBuffer(128 << 10) // above the loopback segment size (a window below it stalls on the persist timer), far below the body
+			}
+			return c, err
+		}
+	}
+	cl := &http.Client{Transport: tp}
 	resp, err := cl.Do(req)
+	if st.SigHeaders != "" {
+		h.record(Event{Actor: "driver", Kind: "headers", Call: "invoke", Tag: st.Tag, Step: idx})
+		h.signal(st.SigHeaders)
+	}
+	if err == nil && st.ReadAfter != "" {
+		h.await(context.Background(), "driver", st.ReadAfter, 8*time.Second)
+	}
 	ev := Event{Actor: "driver", Kind: "return", Call: "invoke", Tag: st.Tag, Step: idx}
 	if err != nil {
 		ev.Err = err.Error()
